@@ -155,6 +155,7 @@ def unit_tests():
         for n in range(pmin, (pmax or pmin + 6) + 1):
             s = g(rng, n)
             expect(len(s) == n and re.search(gen.ecma_to_py(pat), s), "pattern generator %s n=%d -> %r" % (pat, n, s))
+            if not s: continue          # the empty string cannot be broken keeping its length
             b = brk(rng, s)
             expect(len(b) == len(s) and not re.search(gen.ecma_to_py(pat), b), "pattern breaker %s %r -> %r" % (pat, s, b))
 
